@@ -425,7 +425,7 @@ struct conf_node_string_list *conf_register_string_list(struct conf_node_object 
         string_vector_append(&cnode->def_value, xstrdup(arg));
     va_end(args);
 
-    if (!cnode->value.size)
+    if (!cnode->base.present)
         string_vector_copy(&cnode->value, &cnode->def_value);
     return cnode;
 }
@@ -437,7 +437,7 @@ struct conf_node_string_list *conf_register_string_list_sv(struct conf_node_obje
     cnode = conf_register_node(parent, name, CONF_STRING_LIST, sizeof(*cnode));
     string_vector_clear_int(&cnode->def_value);
     string_vector_copy(&cnode->def_value, sv);
-    if (!cnode->value.size)
+    if (!cnode->base.present)
         string_vector_copy(&cnode->value, &cnode->def_value);
     return cnode;
 }
